@@ -935,6 +935,14 @@ pub fn synthetic_project(seed: u64) -> Project {
             extra_keys.push("TrailRest: TrailRest".into());
         }
     }
+    if rng.chance(1, 8) {
+        // named variants of discriminated unions that are also referenced plainly: one with a discriminator of
+        // several values, one whose name may be overridden by a parser that cannot be printed (a Date inside)
+        extra_decls.push("export type PCard = { method: \"visa\" | \"amex\"; pan: string };\nexport type PCash = { method: \"cash\"; drawer: number };\nexport type Payment = PCard | PCash;\nexport type Refund = { original: PCard; reason: string };\nexport type PStamp = { kind: \"stamp\"; at: string };\nexport type PNote = { kind: \"note\"; text: string };\nexport type PEntry = PStamp | PNote;\nexport type PAudit = { last: PStamp; note: PNote };\nexport type NativeStamp = { kind: \"stamp\"; at: Date };".into());
+        for k in ["PCard", "Payment", "Refund", "PStamp", "PEntry", "PAudit", "NativeStamp"] {
+            extra_keys.push(format!("{}: {}", k, k));
+        }
+    }
     let mut pet_files = false;
     if rng.chance(1, 8) {
         // two modules whose doc comments sit at the same byte offsets (same layout, same lengths): whatever keys
